@@ -2,9 +2,9 @@
    Inv s: the store is fine (StOK), every group hangs in the tree below the stack of open blocks, and every
    node of the store sits in a group — so that add_nodes_to_flow will reach every node an exit may point to.
    Inv cs0, and cstep keeps Inv; hence Inv of every state crun returns. *)
-From Coq Require Import List NArith Bool Arith Lia.
+From Coq Require Import List NArith Bool Arith Lia Permutation.
 From RPFT Require Import Base.Sexp Base.PyStr Base.Result Gen.Tables Flow.Flow Flow.Closed Flow.RowSem
-     Comp.Compile Comp.CompileFacts Comp.CompileInv.
+     Comp.Compile Comp.CompileFacts Comp.CompileIds Comp.CompileInv.
 Import ListNotations.
 
 (* g' is g or below the block g *)
@@ -46,10 +46,18 @@ Definition LeafOK (s : cstate) : Prop :=
 
 Record Inv (s : cstate) : Prop := { inv_st : StOK fresh s; inv_tree : TreeOK s; inv_leaf : LeafOK s }.
 
+(* StOK only reads the uuid counter and the nodes *)
+Lemma StOK_same s s' : cs_next s' = cs_next s -> cs_nodes s' = cs_nodes s -> StOK fresh s -> StOK fresh s'.
+Proof.
+  intros E1 E2 [H1 H2]. constructor.
+  - unfold uuids. rewrite E1, E2. exact H1.
+  - unfold all_ids. rewrite E1, E2. exact H2.
+Qed.
+
 Lemma Inv_cs0 : Inv cs0.
 Proof.
   constructor.
-  - constructor.
+  - constructor; [constructor|split; constructor].
   - intros g H. cbn in H. lia.
   - intros k H. cbn in H. lia.
 Qed.
@@ -110,7 +118,7 @@ Qed.
 
 Lemma Inv_add_empty s x rid : (forall k, ~ InGroup [x] 0 k) \/ True -> Inv s -> Inv (add_cgroup s x rid).
 Proof.
-  intros _ [H1 H2 H3]. constructor; [exact H1|apply TreeOK_add, H2|].
+  intros _ [H1 H2 H3]. constructor; [eapply StOK_same; [| |exact H1]; reflexivity|apply TreeOK_add, H2|].
   apply LeafOK_add. intros k Hk. left. apply H3, Hk.
 Qed.
 
@@ -119,7 +127,7 @@ Lemma Inv_end_block s members outer heads' h :
   cs_stack s = members :: outer -> Inv s ->
   Inv (add_cgroup (set_stack_heads s outer heads') (CGBlock members) h).
 Proof.
-  intros Es [H1 H2 H3]. constructor; [exact H1| |].
+  intros Es [H1 H2 H3]. constructor; [eapply StOK_same; [| |exact H1]; reflexivity| |].
   - intros g Hg. cbn in Hg. rewrite app_length in Hg. cbn in Hg.
     rewrite add_cgroup_stack. cbn [cs_groups cs_stack add_cgroup set_stack_heads].
     destruct (Nat.eq_dec g (length (cs_groups s))) as [->|Hne].
@@ -132,13 +140,13 @@ Proof.
 Qed.
 
 Lemma Inv_set_stack_push s hs : Inv s -> Inv (set_stack_heads s ([] :: cs_stack s) hs).
-Proof. intros [H1 H2 H3]. constructor; [exact H1|exact H2|exact H3]. Qed.
+Proof. intros [H1 H2 H3]. constructor; [eapply StOK_same; [| |exact H1]; reflexivity|exact H2|exact H3]. Qed.
 
 Lemma Inv_set_rowmap s rid g : Inv s -> Inv (set_rowmap s rid g).
-Proof. intros [H1 H2 H3]. constructor; [exact H1|exact H2|exact H3]. Qed.
+Proof. intros [H1 H2 H3]. constructor; [eapply StOK_same; [| |exact H1]; reflexivity|exact H2|exact H3]. Qed.
 
 Lemma Inv_set_names s nm k : Inv s -> Inv (set_names s nm k).
-Proof. intros [H1 H2 H3]. constructor; [exact H1|exact H2|exact H3]. Qed.
+Proof. intros [H1 H2 H3]. constructor; [eapply StOK_same; [| |exact H1]; reflexivity|exact H2|exact H3]. Qed.
 
 (* ---------------------------------------------------------------- edges *)
 Lemma cadd_row_edge_ok s e d s' :
@@ -170,9 +178,13 @@ Proof.
   - (* node rows *)
     set (row_action := if is_basic_kind (cr_kind cr) then match payloads with p :: _ => Some p | [] => None end else None).
     destruct (match row_action with Some p => ([(fresh (cs_next s), p)], S (cs_next s)) | None => ([], cs_next s) end) as [acts n1] eqn:Ea.
-    assert (Hn1 : cs_next s <= n1 /\ Forall (below fresh n1) (map fst acts)).
-    { destruct row_action; injection Ea as <- <-; cbn; split; try lia; [constructor; [apply below_fresh; lia|constructor]|constructor]. }
-    destruct Hn1 as [Hn1 Hacts].
+    assert (Hn1 : cs_next s <= n1 /\ Forall (below fresh n1) (map fst acts) /\ FreshList fresh (cs_next s) n1 (map fst acts)).
+    { destruct row_action; injection Ea as <- <-; cbn; split; try lia; split.
+      - constructor; [apply below_fresh; lia|constructor].
+      - apply FreshList_one; lia.
+      - constructor.
+      - apply FreshList_nil. }
+    destruct Hn1 as (Hn1 & Hacts & Facts).
     set (node_name := or_default (cr_uuid cr) (r_node_name (cr_row cr))).
     destruct (match node_name with [] => None | _ => alookup (cs_names s) node_name end) as [k|] eqn:Eex;
       [destruct row_action as [p|] eqn:Era|].
@@ -185,11 +197,14 @@ Proof.
       destruct (nth_error (cs_nodes s) k) as [nd|] eqn:En; [|discriminate].
       assert (Hs1 : Inv (set_node s k (mkCNode (cn_uuid nd) (cn_given nd) (cn_actions nd ++ acts) (cn_body nd)) n1)).
       { destruct Hi as [H1 H2 H3].
-        destruct (set_node_ok fresh s k nd (mkCNode (cn_uuid nd) (cn_given nd) (cn_actions nd ++ acts) (cn_body nd)) n1 H1 En eq_refl Hn1) as [Hst He].
+        destruct (set_node_ok fresh fresh_inj s k nd (mkCNode (cn_uuid nd) (cn_given nd) (cn_actions nd ++ acts) (cn_body nd)) n1 H1 En eq_refl Hn1) as [Hst He].
         - destruct (StOK_nth fresh _ _ _ H1 En) as [N1 N2 N3]. constructor; cbn.
           + intros Hg. eapply below_mono; [exact Hn1|apply N1, Hg].
           + rewrite map_app. apply Forall_app. split; [eapply Forall_below_mono; eauto|exact Hacts].
           + eapply BodyOK_mono; [exact Hn1|apply incl_refl|exact N3].
+        - unfold node_ids, uuid_ids. cbn. rewrite map_app.
+          apply (IdStep_gain fresh _ _ (map fst acts)); [exact Facts|].
+          apply perm_insert.
         - apply (Inv_ext s); [constructor; assumption|exact Hst|exact He]. }
       destruct (r_id (cr_row cr)) as [|c0 rid]; [intros H; injection H as <-; exact Hs1|].
       destruct (e_from e) as [| |frm]; try discriminate.
@@ -198,13 +213,14 @@ Proof.
     + (* a node of that name exists but the row has no action: a new node *)
       revert Ea. intros Ea. injection Ea as <- <-.
       destruct (new_row_node fresh (cs_next s) (cr_kind cr) (cr_uuid cr) [] _) as [[nd n2]|x] eqn:En; [|discriminate].
+      pose proof (new_row_node_ids fresh fresh_inj (cs_next s) _ _ _ _ _ _ _ Hn1 Facts En) as (_ & Fn).
       apply (new_row_node_ok fresh fresh_inj _ (uuids s ++ [cn_uuid nd])) in En as (N1 & N2 & _); [|constructor].
       destruct (foldM _ _ (push_node s nd n2)) as [s2|x] eqn:Ef; [|discriminate].
       intros H. injection H as <-.
       apply (fold_edges_ok (fun _ => Some (cn_uuid nd))) in Ef as [Hst2 He2].
       2:{ intros a Ha. eapply ext_dest_ok; [exact Ha|]. right. unfold uuids. cbn. rewrite map_app. apply in_or_app. right. left. reflexivity. }
-      2:{ apply push_StOK; [apply Hi|exact N1|exact N2]. }
-      apply Inv_set_names. destruct Hi as [H1 H2 H3]. constructor; [exact Hst2| |].
+      2:{ apply (push_StOK fresh fresh_inj); [apply Hi|exact N1|exact N2|exact Fn]. }
+      apply Inv_set_names. destruct Hi as [H1 H2 H3]. constructor; [eapply StOK_same; [| |exact Hst2]; reflexivity| |].
       * apply TreeOK_add. eapply TreeOK_ext; [exact He2|]. exact H2.
       * apply LeafOK_add. intros j Hj.
         destruct (Nat.lt_ge_cases j (length (cs_nodes s))) as [Hlt|Hge].
@@ -215,6 +231,7 @@ Proof.
     + (* no node of that name: a new node *)
       destruct (new_row_node fresh n1 (cr_kind cr) (cr_uuid cr) acts _) as [[nd n2]|x] eqn:En.
       2:{ destruct row_action; discriminate. }
+      pose proof (new_row_node_ids fresh fresh_inj (cs_next s) _ _ _ _ _ _ _ Hn1 Facts En) as (_ & Fn).
       apply (new_row_node_ok fresh fresh_inj _ (uuids s ++ [cn_uuid nd])) in En as (N1 & N2 & _); [|exact Hacts].
       destruct (foldM _ _ (push_node s nd n2)) as [s2|x] eqn:Ef.
       2:{ destruct row_action; discriminate. }
@@ -222,8 +239,8 @@ Proof.
         by (destruct row_action; exact H). clear H. injection H' as <-.
       apply (fold_edges_ok (fun _ => Some (cn_uuid nd))) in Ef as [Hst2 He2].
       2:{ intros a Ha. eapply ext_dest_ok; [exact Ha|]. right. unfold uuids. cbn. rewrite map_app. apply in_or_app. right. left. reflexivity. }
-      2:{ apply push_StOK; [apply Hi|lia|exact N2]. }
-      apply Inv_set_names. destruct Hi as [H1 H2 H3]. constructor; [exact Hst2| |].
+      2:{ apply (push_StOK fresh fresh_inj); [apply Hi|lia|exact N2|exact Fn]. }
+      apply Inv_set_names. destruct Hi as [H1 H2 H3]. constructor; [eapply StOK_same; [| |exact Hst2]; reflexivity| |].
       * apply TreeOK_add. eapply TreeOK_ext; [exact He2|]. exact H2.
       * apply LeafOK_add. intros j Hj.
         destruct (Nat.lt_ge_cases j (length (cs_nodes s))) as [Hlt|Hge].
